@@ -216,8 +216,11 @@ class World:
             _, hk, r, g = op
             self.pool[r].observe(self.handler(hk, r), build_expr(g), remove=True)
         elif k == "SetRef":
-            _, o, f, v = op
-            setattr(self.pool[o], FN[f], None if v is None else self.pool[v])
+            o, f, v = op[1:4]
+            if len(op) > 4 and op[4] == "del":      # del o.f: back to the default (None), with notification
+                delattr(self.pool[o], FN[f])
+            else:
+                setattr(self.pool[o], FN[f], None if v is None else self.pool[v])
         elif k == "SetCont":
             o, f, items = op[1:4]
             self.pending = self.next
@@ -229,7 +232,11 @@ class World:
                     val = {key: self.pool[a] for key, a in items}
                 else:
                     val = {self.pool[a] for a in items}
-                setattr(self.pool[o], FN[f], val)
+                if len(op) > 5 and op[5] == "del":  # del o.kids: a new default (empty) container is assigned
+                    delattr(self.pool[o], FN[f])
+                    getattr(self.pool[o], FN[f])
+                else:
+                    setattr(self.pool[o], FN[f], val)
             finally:
                 cur = self.pool[o].__dict__.get(FN[f])
                 if self.pending is not None and cur is not None and id(cur) not in self.atom:
@@ -274,6 +281,8 @@ class World:
                     del cont[args[0]:args[1]]
                 elif meth == "iadd":
                     cont += [self.pool[a] for a in args[0]]
+                elif meth == "imul":
+                    cont *= args[0]
                 elif meth == "reverse":
                     cont.reverse()
                 elif meth == "sort":
@@ -323,6 +332,7 @@ class World:
 def run_case(case):
     w = World(case["npool"])
     hist = []
+    prev_heap, prev_hooks = None, None
     for op in case["ops"]:
         del w.calls[:]
         out = "Ok"
@@ -330,7 +340,12 @@ def run_case(case):
             w.run_op(op)
         except Exception as e:  # noqa
             out = dlib.exn_name(e, EXN)
-        hist.append({"out": out, "calls": [list(c) for c in w.calls], "heap": w.heap(), "hooks": w.hooks()})
+        heap, hooks = w.heap(), w.hooks()
+        # a dump is sent only when it differs from the one after the previous operation (None = same)
+        hist.append({"out": out, "calls": [list(c) for c in w.calls],
+                     "heap": None if heap == prev_heap else heap,
+                     "hooks": None if hooks == prev_hooks else hooks})
+        prev_heap, prev_hooks = heap, hooks
     return hist
 
 
